@@ -27,6 +27,8 @@ SCRIPTS = {
     "L": [("mul0d",), ("enter", 0), ("imul0d",), ("exit",), ("mul0d",)],
     "M": [("subzeros",), ("enter", 0), ("isubzeros",), ("exit",), ("addzeros",)],
     # plain lists on the left of + (reflected addition), also all-zero ones: array-like operands like any other (only the scalar 0 of sum() is special)
+    # a negative factor applied in place (the refusal must leave no negative contents behind); a negative content of tiny magnitude
+    "P": [("imulneg",), ("enter", 0), ("negtiny",), ("exit",), ("imulneg",)],
     "O": [("negfloat",), ("enter", 0), ("divneg",), ("exit",), ("setnegfloat",)],
     "N": [("raddzerolist",), ("enter", 0), ("raddlist",), ("exit",), ("raddzerolist",)],
 }
@@ -107,6 +109,20 @@ def _task(E, config, h_factory, script, vals, log):
             h = h_factory()
             r = E.attempt(lambda: h * (-1))
             log.append(("neg", "refused" if isinstance(r, Raised) else "accepted"))
+        elif op == "imulneg":
+            h = h_factory()
+
+            def run_i():
+                g = h
+                g *= -2
+                return g
+
+            r = E.attempt(run_i)
+            log.append((op, "refused" if isinstance(r, Raised) else "accepted", bool((h.frequencies >= 0).all())))
+        elif op == "negtiny":
+            h = h_factory()
+            r = E.attempt(lambda: h * (-1e-20))
+            log.append((op, "refused" if isinstance(r, Raised) else "accepted"))
         elif op in ("negfloat", "divneg", "setnegfloat"):
             # negative *float* contents: a fractional negative factor, a negative divisor, float values through the setter
             h = h_factory()
@@ -169,12 +185,12 @@ class C19Schedules(Harness):
     bounds_doc = "2 tasks (quick) / 3 tasks with scripts of 4..7 steps from {enter(v), exit, exit-by-exception, assignment, read, array arithmetic, negative factor} incl. nesting; the values v, the main context's value and the environment default are symbolic / enumerated; the schedule (which task takes the next step) is a symbolic integer sequence forked over all interleavings"
 
     def instances(self, tier):
-        pairs = [("A", "B"), ("C", "D"), ("E", "A"), ("B", "C"), ("F", "G"), ("K", "I"), ("L", "I"), ("M", "I"), ("N", "I"), ("O", "I")] if tier == "quick" else list(itertools.combinations_with_replacement("ABCDE", 2)) + [("F", "G"), ("F", "B"), ("G", "E"), ("F", "F"), ("K", "I"), ("K", "B"), ("L", "I"), ("L", "G"), ("M", "I"), ("N", "I"), ("N", "B"), ("O", "I"), ("O", "G")]
+        pairs = [("A", "B"), ("C", "D"), ("E", "A"), ("B", "C"), ("F", "G"), ("K", "I"), ("L", "I"), ("M", "I"), ("N", "I"), ("O", "I"), ("P", "I")] if tier == "quick" else list(itertools.combinations_with_replacement("ABCDE", 2)) + [("F", "G"), ("F", "B"), ("G", "E"), ("F", "F"), ("K", "I"), ("K", "B"), ("L", "I"), ("L", "G"), ("M", "I"), ("N", "I"), ("N", "B"), ("O", "I"), ("O", "G"), ("P", "I"), ("P", "B")]
         for a, b in pairs:
             for kinds in (("copy", "copy"), ("copy", "fresh"), ("fresh", "fresh")):
                 if tier == "quick" and kinds == ("fresh", "fresh") and (a, b) != ("A", "B"):
                     continue
-                if tier == "quick" and (a, b) in (("F", "G"), ("K", "I"), ("L", "I"), ("M", "I"), ("N", "I"), ("O", "I")) and kinds != ("copy", "fresh"):
+                if tier == "quick" and (a, b) in (("F", "G"), ("K", "I"), ("L", "I"), ("M", "I"), ("N", "I"), ("O", "I"), ("P", "I")) and kinds != ("copy", "fresh"):
                     continue
                 yield f"sched-{a}{b}-{kinds[0]}-{kinds[1]}", dict(scripts=[a, b], kinds=list(kinds), env="unset")
         if tier != "quick":
@@ -294,5 +310,5 @@ class C19Schedules(Harness):
                     yield f"read[{t}][{k}]", cx.b(got) == ref[k]
                 elif op in ("arith", "divarr", "mularr", "subarr", "idivarr", "mul0d", "imul0d", "subzeros", "addzeros", "isubzeros", "raddlist", "raddzerolist"):
                     yield f"array_operand[{t}][{k}]", z3.BoolVal(got == "accepted") == ref[k]
-                elif op in ("neg", "addneg", "iaddneg", "subover", "setneg", "negfloat", "divneg", "setnegfloat"):
+                elif op in ("neg", "addneg", "iaddneg", "subover", "setneg", "negfloat", "divneg", "setnegfloat", "imulneg", "negtiny"):
                     yield f"negative_content[{t}][{k}]", z3.BoolVal(got == "accepted") == ref[k]
